@@ -159,6 +159,7 @@ const (
 	pcpKeyIDLen0
 	pcpKeyIDLen3
 	pcpEmptyPKH
+	pcpOtherRoundCert // a genuine certificate for the same parent from a later round, plus one nil precommit of that round
 	pcpVariants
 )
 
@@ -209,6 +210,21 @@ func (s *sim) mutatePCP(p tmconsensus.CommitProof, prevSet vset, h uint64, paren
 			msg := precommitBytes(h-1, p.Round, target)
 			p.Proofs[target] = append(p.Proofs[target], gcrypto.SparseSignature{KeyID: keyID(who), Sig: sign(prevSet.Keys[who], msg)})
 		}
+	case pcpOtherRoundCert:
+		// validators may have precommitted the same block again in a later round: a certificate
+		// the node does not hold, for another round than the one it committed in
+		r2 := p.Round + 1
+		q := tmconsensus.CommitProof{Round: r2, PubKeyHash: p.PubKeyHash, Proofs: map[string][]gcrypto.SparseSignature{}}
+		n := len(prevSet.Keys)
+		for i, k := range prevSet.Keys {
+			if i == n-1 && n > 3 {
+				// the last validator precommitted nil in that round (still > 2/3 for the block when n > 3 and powers allow)
+				q.Proofs[""] = append(q.Proofs[""], gcrypto.SparseSignature{KeyID: keyID(i), Sig: sign(k, precommitBytes(h-1, r2, ""))})
+				continue
+			}
+			q.Proofs[parentHash] = append(q.Proofs[parentHash], gcrypto.SparseSignature{KeyID: keyID(i), Sig: sign(k, precommitBytes(h-1, r2, parentHash))})
+		}
+		return q
 	case pcpCorruptSig:
 		if len(main) > 0 {
 			main[0].Sig = flip(main[0].Sig)
@@ -453,6 +469,16 @@ func (s *sim) phTrigger(b builtPH) string {
 		return "C09-A2"
 	}
 	if h == s.vv.Height+1 {
+		// a certificate for the round after the voting round is handled like a next-round precommit message
+		if pcp := b.PH.Header.PrevCommitProof; pcp.Round == s.vv.Round+1 && pcp.PubKeyHash == string(s.vv.ValidatorSet.PubKeyHash) {
+			set := s.setFor(s.vv.Height)
+			for hash, sigs := range pcp.Proofs {
+				ok, _ := validSigners(set, precommitBytes(s.vv.Height, pcp.Round, hash), sigs)
+				if atLeastOneThird(powerOf(set, ok), set.total()) {
+					return "C09-A5"
+				}
+			}
+		}
 		// the embedded certificate must make the node commit the voting height, else the call never returns
 		good := b.PCP == pcpExact && s.inVotingView(b.ParentHash) && b.PH.Header.PrevCommitProof.Round == s.vv.Round &&
 			(b.Variant != phWrongPrev)
@@ -729,7 +755,12 @@ func (s *sim) voteTrigger(b builtVote) string {
 		// reaches MergeSparse without the key-id filter (only when the pubkeys can be found)
 		return "C09-A13"
 	}
-	if b.Kind == 1 && h == s.vv.Height && r == s.vv.Round+1 && b.PKH == string(s.vv.ValidatorSet.PubKeyHash) {
+	nextRound := r == s.vv.Round+1
+	if s.inConc {
+		// a sibling may advance the round first: any later round can become the next round
+		nextRound = r >= s.vv.Round+1
+	}
+	if b.Kind == 1 && h == s.vv.Height && nextRound && b.PKH == string(s.vv.ValidatorSet.PubKeyHash) {
 		for _, ok := range per {
 			if atLeastOneThird(powerOf(b.Set, ok), b.Set.total()) {
 				return "C09-A5"
@@ -1335,6 +1366,8 @@ func (s *sim) execConc(op Op) {
 		fin  func()
 	}
 	var ps []pending
+	s.inConc = true
+	defer func() { s.inConc = false }()
 	for _, sub := range op.Sub {
 		switch sub.K {
 		case "ph":
